@@ -108,6 +108,15 @@ CHECKS["C19"] = ("DESIGN.md C19",
     "enumeration): set algebra over a 6-value mixed domain, unique, mean/median(even) under all "
     "permutations, gcd/lcm on [-20,20]^2, pow witnesses beyond 2^53.")
 
+CHECKS["C13"] = ("DESIGN.md C13",
+    "Every function of the (secure, legacy) base environment (219 natives and module functions) with "
+    "every tuple of 14 argument kinds for arity <= 2 (thorough 3), the same object passed twice, "
+    "and 82 syntactic operator/index/slice/iteration/spread/destructuring/assignment forms: int "
+    "payloads symbolic in [-9, 9] (edge values are solutions of the code's branch conditions), other "
+    "kinds from small pools selected by symbolic indices. Every feasible path must end in a value "
+    "or a CklRuntimeError carrying a language value; other exception classes and confirmed budget "
+    "exhaustion are violations.")
+
 NA = {}
 
 
